@@ -2,6 +2,7 @@
    Model: Model/Server.v (Server._enqueue / _wait_for_result / gather / notifier over an abstract
    servlet), after the repairs recorded in known_findings.json (while-loop around the not-full wait;
    ledger entry before the input is queued). *)
+From MpV Require Import Proof.ServerLedger.
 From MpV Require Import Lib.Conc Model.Server Proof.ServerProof.
 
 (* For every capacity, every number of concurrent callers (each with or without backpressure), every
@@ -14,13 +15,30 @@ Theorem C06_backlog_le_capacity : forall (g : cfg) (sched : list label),
 Proof. exact backlog_le_capacity. Qed.
 Print Assumptions C06_backlog_le_capacity.
 
-(* C06_slot_returned_todo / C06_idle_backlog_zero_todo (checked by the oracle on every explored run:
-   after the pipeline has drained the ledger is empty):
-     q_in s = [] -> q_out s = [] -> all workers idle -> gp s = GGet -> no caller between KSet and KPut
-     -> ledger s = [].
-   C06_backpressure_rejects_clean_todo: a caller that ends Rejected never appears in the ledger or the
+(* Every accepted request gives its slot back exactly when its result emerges: for every configuration and every
+   interleaving (including every moment a timed wait may expire), request u is in the ledger iff it is in flight -
+   recorded but not yet queued, in the input queue, held by a servlet worker, in the output queue, or just taken by
+   the gather thread - and it is in at most one of those places. *)
+Theorem C06_ledger_is_in_flight : forall g sched u,
+  let s := run step g (init g) sched in
+  led u s = inflight u s /\ (inflight u s <= 1)%nat.
+Proof. exact ledger_is_in_flight. Qed.
+Print Assumptions C06_ledger_is_in_flight.
+
+(* ... so an idle server has backlog zero, whether the requests succeeded, failed, timed out or were cancelled *)
+Theorem C06_idle_backlog_zero : forall g sched,
+  quiet (run step g (init g) sched) -> ledger (run step g (init g) sched) = [].
+Proof. exact idle_backlog_zero. Qed.
+Print Assumptions C06_idle_backlog_zero.
+
+(* ... and no result ever finds its ledger entry missing (the defect repaired by commit c677130). *)
+Theorem C06_no_result_dropped : forall g sched, dropped_results (run step g (init g) sched) = [].
+Proof. exact no_result_dropped. Qed.
+Print Assumptions C06_no_result_dropped.
+
+(* C06_backpressure_rejects_clean_todo: a caller that ends Rejected never appears in the ledger or the
    input queue and never waits (by construction of step_k: the only path from KCheck with a full
-   ledger and backpressure goes to KUnlock (Some false)). *)
+   ledger and backpressure goes to KUnlock (Some false)); checked by the oracle on every explored run. *)
 
 (* Non-vacuity: with capacity 1 and three waiting callers the bound is reached, not exceeded. *)
 Example C06_example :
